@@ -42,3 +42,8 @@ claim("C17", "static analysis: guard dominance (SCCP, both directions of each eq
   "Decides that the importer's latest-pointer write and nil return are unreachable when any check fails (header, manifest, per-block decode, contiguity and surplus in both directions, delta, checkpoint and final CID, non-empty, last == header latest), that the pointer is written once and last with certificates stored under their own key, that export sends every byte through the hashing writer with a header bound to (1, first, requested latest, table at first) and the range first…requested latest of raw stored bytes, that the importer's checkpoint writer agrees with the store's reader, and that block framing is symmetric (C17.R1–R5). Structural necessary conditions; observational identity of the imported store is not decided.",
   "AS1 datastore atomic/non-failing; trusts go/types, go/ssa, checker/c17.go.",
   "DESIGN.md §4 C17")
+
+claim("C11", "static analysis: call-order dominance, error guard dominance (SCCP), exit-by-exit return provenance, open-flag constants, allocation placement on the WAL",
+  "Decides that Append acknowledges only after rotate-check ≺ marshal ≺ write ≺ fsync with every error guarding the next step and the epoch bookkeeping after both the rotation decision and the fsync; that the reader appends only successfully decoded records into a per-iteration fresh variable and that EVERY exit after a successful open returns the accumulated prefix with the running max epoch over all decoded entries; that write-mode opens are exclusive-create under a fresh name and only rotate installs the active file; that Purge removes only closed files whose max epoch is strictly below the bound and keeps the others listed; flush order; lock discipline (C11.R1–R6). Structural necessary conditions; torn-record decoding and filesystem semantics are not decided.",
+  "AS1 fsync durability; trusts go/types, go/ssa (generic instantiation for walEntry), checker/c11.go.",
+  "DESIGN.md §4 C11")
